@@ -70,8 +70,18 @@ def oracle_c01(ctx, mt, cu, q, ref, res, seq):
                 else:
                     mech = 'text-not-in-query'
         if mech:
+            if cu == 'zh-cn' and mt == 'DateTimeModel':
+                from rtmon.checkers import c01
+                if c01.ZH_ADD_MOD['changed']:
+                    where['shape'] = mech
+                    mech = 'zh-cn-add-mod-respan'
             ctx.fail(mech, where, key, case, 'entity.text == normalised query[start..end]', ents)
-            return
+            break
+    if cu == 'zh-cn' and mt == 'DateTimeModel':
+        from rtmon.checkers import c01
+        ctx.event('zh_add_mod_calls', c01.ZH_ADD_MOD['calls'])
+        c01.ZH_ADD_MOD['changed'] = False
+        c01.ZH_ADD_MOD['calls'] = 0
 
 
 def oracle_c12(ctx, mt, cu, q, ref, res, seq):
@@ -304,7 +314,7 @@ def run(pid, job, ctx):
         if ctx.tier == 'quick':
             per = 500
             if len(inputs) > per * 1:
-                inputs = sorted(r.sample(inputs, min(len(inputs), max(per, len(inputs) // 6))))
+                inputs = sorted(r.sample(inputs, min(len(inputs), max(per, len(inputs) // 6))), key=lambda t: (t[0], t[1] or ''))
         for i, (q, ref) in enumerate(inputs):
             if i % job['shards'] != job['shard']:
                 continue
